@@ -13,6 +13,13 @@ fn call(name: &str, text: &str, o: &Opt) -> String {
 }
 
 fn kf_class(text: &str, o: &Opt) -> Option<&'static str> {
+    // a known-finding class can only explain a failure on a paragraph outside the hypothesis of
+    // the Lean theorems `*_safe` (C02/C05): if every paragraph is `SeqSafe` for the configured
+    // splitter the theorems say the property holds, and the failure is reported as a violation
+    let hy = o.splitter == "h";
+    if text.split(o.ending()).all(|p| seq_safe(hy, p)) {
+        return None;
+    }
     let all = format!("{}{}{}", text, o.ii, o.si);
     if o.sep == 'a' && kf1a(&all) {
         Some("KF-1a")
@@ -336,6 +343,10 @@ pub fn c05(ctx: &mut Ctx) {
         ctx.case(op_s, format!("wrap_single_line_slow_path[nprev={}]({}, {})", nprev, show(&line), o.show()));
         let (op_f, fast) = op_wrapline("fast", nprev, &line, &o);
         ctx.case(op_f, format!("wrap_single_line[nprev={}]({}, {})", nprev, show(&line), o.show()));
+        // the hypothesis of the `*_safe` theorems, model vs the independent scanner
+        let hy = o.splitter == "h";
+        ctx.case(op_seqsafe(hy, &line), format!("seq_safe[hyphen={}]({})", hy, show(&line)));
+        ctx.count(if seq_safe(hy, &line) { "seq_safe_lines" } else { "unsafe_lines" });
         let fits = base <= o.width;
         if fits && wellformed(&indent) {
             let exp = format!("{}{}", indent, line.trim_end_matches(' '));
